@@ -247,6 +247,9 @@ def h_policy_sets(r, n):
                 b = body if kw == "when" else "!(%s)" % body
                 pols.append({"id": "p%d" % i, "text": "%s(%s) %s { %s };" % (eff, scope, kw, b)})
         out.append({"schema": H_SCHEMA, "templates": tpls, "policies": pols, "stream": "H"})
+    # the recorded finding c17-oracle-static-false-error, reached on every run (printed as KNOWN-FINDING)
+    out.append({"schema": H_SCHEMA, "templates": [], "stream": "H", "policies": [
+        {"id": "p0", "text": "permit(principal, action, resource is Doc) unless { principal.profile has team };"}]})
     for (a, b) in H_PAIRS:
         for x, y in ((a, b), (b, a)):
             out.append({"schema": H_SCHEMA, "templates": [], "stream": "H", "policies": [
